@@ -98,7 +98,8 @@ def distribution(case, thetas=None, growth=None):
     if k == "skygrid":
         return C.PiecewiseConstantCoalescentGrid(th, T(case["grid"]))
     if k == "softgrid":
-        return C.SoftPiecewiseConstantCoalescentGrid(th, T(case["grid"]))
+        tau = float(F(case["temperature"])) if case.get("temperature") else None
+        return C.SoftPiecewiseConstantCoalescentGrid(th, T(case["grid"]), tau)
     if k == "exponential":
         return C.ExponentialCoalescent(th, T([case["growth"]]) if growth is None else growth)
     if k == "linear":
@@ -507,6 +508,44 @@ class Runner:
                                {"path": path})
 
 
+# ----------------------------------------------------------------------------- relaxed skygrid (temperature)
+def soft_check(R: Runner, rng, n):
+    """SoftPiecewiseConstantCoalescentGrid with a temperature: Lean model (TTModel/C08_Soft.lean) vs torchtree, and the
+    exact fact soft_all_equal evaluated on the implementation"""
+    import torchtree.evolution.coalescent as C
+
+    g = G.genealogy(rng, n, q=3)
+    samp, coal, _, _ = G.shuffled_blocks(rng, g["samp"], g["coal"])
+    gg = rng.randint(1, 6)
+    grid = G.grid_for(rng, gg, max(coal), coal, samp, q=3)
+    thetas = [F(rng.randint(2, 48), 8) for _ in range(gg + 1)]
+    tau = rng.choice([F(1, 32), F(1, 8), F(1, 2), F(1), F(3)])
+    case = {"kind": "softgrid", "samp": samp, "coal": coal, "grid": grid, "thetas": thetas, "temperature": fr(tau)}
+    R.ck.case(key=("soft", n, tuple(samp), tuple(coal), tuple(grid), tuple(thetas), tau), bucket=f"soft-temperature/tau={float(tau)}")
+    h = samp + coal
+    try:
+        v = float(C.SoftPiecewiseConstantCoalescentGrid(T(thetas), T(grid), float(tau)).log_prob(T(h)).reshape(-1)[0])
+        th0 = F(rng.randint(2, 48), 8)
+        veq = float(C.SoftPiecewiseConstantCoalescentGrid(T([th0] * (gg + 1)), T(grid), float(tau)).log_prob(T(h)).reshape(-1)[0])
+    except Exception as e:
+        R.violation("SoftPiecewiseConstantCoalescentGrid(temperature).log_prob:raises", f"raises {type(e).__name__}: {str(e)[:120]}", case, size=n)
+        return
+    if R.drv is None:
+        return
+    m = R.drv.ask(f"soft F {Hx([tau])} | {Hx(thetas)} | {Hx(h)} | {Hx(grid)}")
+    st = R.drv.ask(f"softstat F {Hx([tau])} | {Hx(h)} | {Hx(grid)}")
+    if m == "bad-op" or st == "bad-op":
+        R.ck.mismatch("soft model answered bad-op", {"case": enc_case(case)})
+        return
+    if not close(v, h2f(m), 1e-9, abs(v)):
+        R.ck.mismatch("relaxed skygrid differs from the Lean model", {"case": enc_case(case), "impl": v, "model": h2f(m)})
+    want = -h2f(st) / float(th0) - (n - 1) * math.log(float(th0))
+    if not close(veq, want, 1e-9, abs(want)):
+        R.violation("SoftPiecewiseConstantCoalescentGrid(temperature).log_prob:all-equal",
+                    f"relaxed skygrid with all pieces equal to {float(th0)} gives {veq!r}; -(relaxed statistic)/theta - (n-1) log theta = {want!r}",
+                    dict(case, thetas=[th0] * (gg + 1)), {"impl": veq, "want": want}, size=n)
+
+
 # ----------------------------------------------------------------------------- from_json construction paths
 def json_paths(R: Runner, rng, kind, n):
     """the `*Model.from_json` constructors: data given as `times`/`events` or `intervals`/`events` (FakeTreeModel
@@ -885,6 +924,9 @@ def run(ck: Check):
         for n in ([2, 3, 5, 8] if not ck.thorough() else [2, 3, 4, 5, 8, 13, 21]):
             for kind in ("constant", "exponential", "skyride", "skygrid", "linear"):
                 R.guard('json_paths', json_paths, R, rng, kind, n)
+        for n in ([2, 3, 4, 6, 9, 14] if not ck.thorough() else list(range(2, 26))):
+            for _ in range(2 if not ck.thorough() else 4):
+                R.guard('soft_check', soft_check, R, rng, n)
         # live model objects through update histories
         live_sizes = [2, 3, 4, 6, 9] if not ck.thorough() else [2, 3, 4, 5, 6, 8, 12, 20]
         for n in live_sizes:
